@@ -53,9 +53,11 @@ ShadowNames     == {"clear", "update", "pop"}
 \* around payload n is node 1000+n, an unwrapped value is 2000+n
 Cid(n) == 1000 + n
 Rid(n) == 2000 + n
+Iid(n) == 5000 + n        \* the plain int inside an unwrapped [n] / {'a': n}
 
 ScalarRec(n)    == [k |-> "s",   v |-> n, py |-> <<>>, cm |-> <<>>]
-RawRec(n)       == [k |-> "raw", v |-> n, py |-> <<>>, cm |-> <<>>]
+\* an unwrapped value keeps its Python shape in py: <<"S">> = n, <<"L">> = [n], <<"D">> = {'a': n}
+RawRec(n, t)    == [k |-> "raw", v |-> n, py |-> <<t>>, cm |-> <<>>]
 ListRec(py, cm) == [k |-> "l",   v |-> 0, py |-> py,   cm |-> cm]
 DictRec(py, cm) == [k |-> "d",   v |-> 0, py |-> py,   cm |-> cm]
 MkList(ids)     == ListRec(ids, [p \in DOMAIN ids |-> <<p - 1, ids[p]>>])
@@ -80,7 +82,7 @@ Alloc(h, vs) ==
       [] vs.t = "L" -> (vs.n :> ScalarRec(vs.n)) @@ (Cid(vs.n) :> MkList(<<vs.n>>)) @@ h
       [] vs.t = "D" -> (vs.n :> ScalarRec(vs.n)) @@ (Cid(vs.n) :> MkDict(<< <<"a", vs.n>> >>)) @@ h
 NodeId(vs)      == IF vs.t = "S" THEN vs.n ELSE Cid(vs.n)
-AllocRaw(h, vs) == (Rid(vs.n) :> RawRec(vs.n)) @@ h
+AllocRaw(h, vs) == (Rid(vs.n) :> RawRec(vs.n, vs.t)) @@ (Iid(vs.n) :> RawRec(vs.n, "S")) @@ h
 
 \* result of an operation: the heap it leaves, the exception class ("" = returned), deviations that made a difference
 Ok(h)      == [h |-> h, err |-> "", fired |-> {}]
@@ -142,7 +144,7 @@ LInsert(h, t, i, vs) ==
         sh   == [p \in DOMAIN nd.cm |-> <<IF nd.cm[p][1] >= idx THEN nd.cm[p][1] + 1 ELSE nd.cm[p][1], nd.cm[p][2]>>]
         py2  == InsertSeq(nd.py, idx + 1, id)
         asis == MSet(sh, idx, id)                               \* set_child puts the new index LAST
-        good == InsertSeq(sh, Min2(idx + 1, Len(sh) + 1), <<idx, id>>)   \* child map rebuilt in list order
+        good == [p \in DOMAIN py2 |-> <<p - 1, py2[p]>>]          \* child map rebuilt in list order
     IN Pick(InsertKeepsMapOrder, "InsertKeepsMapOrder",
             Ok([h1 EXCEPT ![t] = [nd EXCEPT !.cm = asis, !.py = py2]]),
             Ok([h1 EXCEPT ![t] = [nd EXCEPT !.cm = good, !.py = py2]]))
@@ -330,6 +332,10 @@ Tok(h, id, view) ==
 \* dict.__getitem__; anything else is not subscriptable.  0 = raises
 PyGet(h, id, key, kk) ==
     IF id = 0 THEN 0
+    ELSE IF h[id].k = "raw"        \* a plain Python value: [n][0], [n][-1] and {'a': n}['a'] work, nothing else does
+    THEN (IF h[id].py[1] = "L" /\ kk = "l" THEN (IF key = 0 \/ key = 0 - 1 THEN Iid(h[id].v) ELSE 0)
+          ELSE IF h[id].py[1] = "D" /\ kk = "d" THEN (IF key = "a" THEN Iid(h[id].v) ELSE 0)
+          ELSE 0)
     ELSE IF h[id].k # kk THEN 0
     ELSE IF kk = "l" THEN (LET idx == VIdx(Len(h[id].py), key, TRUE) IN IF idx < 0 THEN 0 ELSE h[id].py[idx + 1])
     ELSE MGet(h[id].py, key)
